@@ -41,11 +41,21 @@ Definition eMd (m : option (list mdrow)) : Tree := eOpt (fun rows => L (map eRow
 Definition tGmd (t : Tree) : list (str * (str * str)) :=
   map (fun e => (tLZ (tnth e 0), (tLZ (tnth e 1), tLZ (tnth e 2)))) (tL t).
 
+(* a group-metadata entry is  L [key; data type; payload]  or, for a loaded table,  L [key; text] *)
+Definition tGmdRaw (t : Tree) : list (str * gval) :=
+  map (fun e => (tLZ (tnth e 0),
+                 match tL e with
+                 | [_; _; _] => GPair (tLZ (tnth e 1)) (tLZ (tnth e 2))
+                 | _ => GText (tLZ (tnth e 1))
+                 end)) (tL t).
 (* L [oids; sids; fmt; cs; omd; smd; type; id; ogmd; sgmd] *)
 Definition tState (t : Tree) : state :=
   mkSt (tStrs (tnth t 0)) (tStrs (tnth t 1)) (tFmt (tnth t 2)) (tCSbig (tnth t 3))
        (tMd (tnth t 4)) (tMd (tnth t 5)) (tOpt tLZ (tnth t 6)) (tOpt tLZ (tnth t 7))
        (tGmd (tnth t 8)) (tGmd (tnth t 9)).
+(* write a state whose group metadata are as its history left them *)
+Definition write_state (t : Tree) (genby date : str) : result h5 :=
+  to_hdf5_raw (tState t) (tGmdRaw (tnth t 8)) (tGmdRaw (tnth t 9)) genby date.
 
 Definition eKind (k : dkind) : Tree :=
   match k with KF64 => I 0 | KI32 => I 1 | KI64 => I 2 | KBool => I 3 | KVStr => I 4 end.
